@@ -8,8 +8,10 @@ import (
 	"math/rand"
 	"os"
 	"os/exec"
+	"path/filepath"
 	"regexp"
 	"strings"
+	"unicode/utf8"
 
 	"github.com/mgutz/ansi"
 )
@@ -112,8 +114,9 @@ func emitPP(id string, content []byte, level, pf, lit string, banner bool, ngor 
 		}
 	}
 	filt, fe, mat, me := "", 0, "", 0
+	q := ""
 	if lit != "" {
-		q := regexp.QuoteMeta(lit)
+		q = regexp.QuoteMeta(lit)
 		// "X$" / "X\n$": expressions that look at the END of the header (which ends with a newline)
 		if strings.HasPrefix(lit, "\x01") {
 			q = regexp.QuoteMeta(lit[1:]) + "$"
@@ -135,7 +138,49 @@ func emitPP(id string, content []byte, level, pf, lit string, banner bool, ngor 
 	}
 	emit("pp", id, hexs(content), level, pf, hexs([]byte(lit)), b, strings.Join(pal, ","),
 		hexs([]byte(plain)), fmt.Sprint(pe), hexs([]byte(color)), fmt.Sprint(ce),
-		hexs([]byte(filt)), fmt.Sprint(fe), hexs([]byte(mat)), fmt.Sprint(me), ngor, junks, det, def)
+		hexs([]byte(filt)), fmt.Sprint(fe), hexs([]byte(mat)), fmt.Sprint(me), ngor, junks, det, def, runVint(content, level, pf, q, plain))
+}
+
+// runVint (C14, hook internal/verif_hooks.go + internal/verifcmd, tag verif): pp's text renderer called twice on every
+// snapshot of the stream, with the expression as -f, then as -m; the snapshot must stay deep-equal to a fresh parse and
+// a later rendering must equal the rendering of the fresh parse. "X" when the hook binary could not be built.
+func runVint(content []byte, level, pf, q, plain string) string {
+	bin := filepath.Join(filepath.Dir(os.Getenv("VERIF_PP")), "vint")
+	if _, err := os.Stat(bin); err != nil {
+		return "X"
+	}
+	res := "ok"
+	runs := [][2]string{{q, ""}, {"", q}}
+	if q == "" {
+		runs = runs[:1]
+	}
+	// every header line of the unfiltered output in turn as the one block dropped, then as the one block kept
+	// (scenarios the property names are enumerated, not sampled)
+	seen := map[string]bool{}
+	for _, l := range strings.Split(plain, "\n") {
+		if l == "" || strings.HasPrefix(l, "    ") || seen[l] || len(seen) >= 8 || len(l) > 300 || !utf8.ValidString(l) {
+			continue
+		}
+		seen[l] = true
+		h := "^" + regexp.QuoteMeta(l) + "\n$"
+		runs = append(runs, [2]string{h, ""}, [2]string{"", h})
+	}
+	for _, a := range runs {
+		cmd := exec.Command(bin, level, pf, a[0], a[1])
+		cmd.Stdin = bytes.NewReader(content)
+		cmd.Dir = "/"
+		cmd.Env = []string{"PATH=/usr/bin:/bin", "HOME=/tmp", "TERM=xterm", "GOTRACEBACK=all"}
+		out, err := cmd.Output()
+		o := strings.TrimSpace(string(out))
+		if err != nil {
+			return "crash"
+		}
+		if !strings.HasPrefix(o, "ok:") {
+			return o
+		}
+		res = o
+	}
+	return res
 }
 
 func init() {
